@@ -391,12 +391,17 @@ class Acc:
 
     def problem(self, clause, msg, A, B, ref, recursive, ignore_device=False):
         self.nbad += 1
-        key = (A.n + B.n, len(msg))
-        old = self.bad.get(clause)
+        n = A.n + B.n
+        k = (clause, recursive)
+        old = self.bad.get(k)
+        if old is not None and n > old[0][0]:
+            return
+        cls = case_class(ref) if ref else "-"
+        key = (n, len(cls), len(msg))       # smallest trees, then the simplest class of change
         if old is None or key < old[0]:
             case = dict(old=tree_json(A.tree), new=tree_json(B.tree), recursive=recursive, ignore_device=ignore_device,
                         clause=clause)
-            self.bad[clause] = (key, case, msg, case_class(ref) if ref else "-")
+            self.bad[k] = (key, case, msg, cls)
 
     def merge(self, o):
         self.evals += o.evals
@@ -520,14 +525,26 @@ def _job_device(args):
 # ------------------------------------------------------------------------------------------------
 # driver
 # ------------------------------------------------------------------------------------------------
-def _report(ctx, name, acc, samples, extra=None, exhaustive=True):
-    for clause, (key, case, msg, cls) in sorted(acc.bad.items()):
+_ALL = Acc()
+
+
+def _flush_violations(ctx):
+    """One violation per (clause, recursive): the smallest failing case over all parts."""
+    for (clause, _), (key, case, msg, cls) in sorted(_ALL.bad.items()):
         rec = "recursive" if case["recursive"] else "non-recursive"
         ctx.add_violation(dict(
             kind=clause, fp=f"C09 {clause} [{rec}; smallest failing case: {cls}]",
             msg=f"{msg}\n old tree (path, inode, dev, kind, mtime, size): {case['old']}\n new tree: {case['new']}\n"
-                f" recursive={case['recursive']} ignore_device={case['ignore_device']} (part {name})",
+                f" recursive={case['recursive']} ignore_device={case['ignore_device']}; "
+                f"{_ALL.nbad} failing evaluations in total",
             prefix=[], harness="enum", case=case))
+
+
+def _report(ctx, name, acc, samples, extra=None, exhaustive=True):
+    for k, v in acc.bad.items():
+        if k not in _ALL.bad or v[0] < _ALL.bad[k][0]:
+            _ALL.bad[k] = v
+    _ALL.nbad += acc.nbad
     ex = dict(distinct_signatures=len(acc.sigs), failing_evaluations=acc.nbad)
     if extra:
         ex.update(extra)
@@ -556,6 +573,7 @@ def run(ctx):
     import multiprocessing
 
     wd.load()
+    _ALL.__init__()
     quick = ctx.tier == "quick"
     W = ctx.workers
     M = W * 8    # residue classes per part (load balance: row i has n-i pairs)
@@ -637,6 +655,7 @@ def run(ctx):
         _report(ctx, "D: per-entry device vectors: ignore_device=True gives an empty diff; device is part of identity otherwise",
                 acc, [dict(tree=tree_json(full[-1].tree), new_devices=[1] * len(full[-1].tree), ignore_device=True, diff={})],
                 extra=dict(trees=len(full)))
+    _flush_violations(ctx)
 
 
 # ------------------------------------------------------------------------------------------------
